@@ -293,6 +293,10 @@ func c04PartA(r *core.Run, agentBin string, md *fakes.Metadata) {
 				return
 			}
 			defer agent.Kill()
+			// the bounds of the histories are for requests, not for the start-up of the agent process
+			for d := time.Now().Add(60 * time.Second); time.Now().Before(d) && px.Lists() == 0 && agent.Alive(); {
+				time.Sleep(10 * time.Millisecond)
+			}
 			for h := range ch {
 				if r.Violations() >= 10 {
 					continue // refuted already: the remaining histories would only add witnesses (and sit out their waits)
